@@ -298,7 +298,7 @@ def shard(args):
 
 
 def run(ctx):
-    n = 3000 if ctx.tier == 'quick' else 120000
+    n = 3000 if ctx.tier == 'quick' else 600000
     shards = [{'shard': i, 'n': n} for i in range(common.NCPU)]
     results = common.run_shards('checks.c11', shards, timeout=3000)
     common.merge_shards(ctx, results)
